@@ -462,8 +462,8 @@ func c02Keys(w *World, r *Report) {
 	// on SSA: AddKey(k, m[k]) on PeakPath().LastPathElem(), for every k of a list that holds the keys
 	// of m and has been sorted before the loop that reads it
 	attached, sorted := false, false
-	if f := w.SSAFunc(pe); f != nil && len(f.AnonFuncs) == 1 {
-		cf := f.AnonFuncs[0]
+	if f := w.SSAFunc(pe); f != nil && len(builderInstrFuncs(f)) == 1 {
+		cf := builderInstrFuncs(f)[0] // the instruction: a function literal or a named function handed to CodeFn
 		full := func(c *ssa.Call) string {
 			sc := c.Call.StaticCallee()
 			if sc == nil {
